@@ -200,7 +200,8 @@ func (fu *folderUpload) FormattedPath() string {
 		pathData = pathData[3+segLen:]
 	}
 
-	return filepath.Join(pathSegments...)
+	// Join under a leading "/" so that ".." segments sent by the client cannot climb out of the upload folder.
+	return filepath.Join(append([]string{"/"}, pathSegments...)...)
 }
 
 type FileHeader struct {
